@@ -12,4 +12,6 @@ from engine import frontend
 frontend.build_driver(force=True)
 s = frontend.regenerate(list(frontend.PACKAGES))
 print('MIR regenerated for %d crates in %.1fs' % (len(frontend.PACKAGES), s))
+from engine import replay
+print('replay runner:', replay.build_runner())
 PY
